@@ -100,11 +100,14 @@ def gen_cache_case(rng, kind, i, profile=None, nops=None):
 
 
 def gen_mass_expiry(rng, kind, i, batch):
-    """More entries than one purge batch expire at once (around `batch`)."""
+    """More entries than one purge batch expire at once (around `batch`); then entries beyond
+    the part one maintenance run can purge (expired but still physically held) are touched."""
     cfg = gen_cfg(rng, kind, "mass-expiry")
     cfg["cap"] = rng.choice(["none", 10 * batch])
     cfg["weigher"] = "none"
-    n = batch + rng.choice([-1, 0, 1, 7, batch])
+    both = cfg["ttl"] != "none" and cfg["tti"] != "none"
+    per_run = batch * (2 if both and kind == "unsync" else 1)     # entries one maintenance run can purge
+    n = per_run + rng.choice([-1, 0, 1, 7, 30, batch])
     lines = [cfg_line(cfg)]
     for k in range(n):
         lines.append(f"I {k} {k % 7}")
@@ -113,9 +116,14 @@ def gen_mass_expiry(rng, kind, i, batch):
     if kind == "sync":
         lines.append("S")
     d = max(cfg["ttl"] if cfg["ttl"] != "none" else 0, cfg["tti"] if cfg["tti"] != "none" else 0)
-    lines.append(f"D {d + 1}")
-    for _ in range(4):
-        lines.append(rng.choice([f"G {rng.randrange(n)}", f"C {rng.randrange(n)}", "T", f"I {n + 5} 1", f"X {rng.randrange(n)}"] + (["S"] if kind == "sync" else [])))
+    lines.append(f"D {rng.choice([d, d + 1])}")
+    if rng.random() < 0.5:
+        for _ in range(2):
+            lines.append(rng.choice([f"G {rng.randrange(n)}", f"C {rng.randrange(n)}", "T", f"I {n + 5} 1", f"X {rng.randrange(n)}"] + (["S"] if kind == "sync" else [])))
+    # touch entries in the tail of the LRU / write order: expired, possibly not yet purged
+    for _ in range(3):
+        k = rng.randrange(max(0, min(per_run, n - 1)), n) if n > per_run else rng.randrange(n)
+        lines += [f"G {k}", f"C {k}", rng.choice(["T", f"G {k}", "D 1"]), f"C {k}"]
     lines.append("T")
     return (f"{kind[0]}{i}_massexp{n}", lines)
 
